@@ -485,14 +485,11 @@ def check_c30(run):
         if "interrupted" in fst:
             continue
         if "eval-error" in fst and "No such variable" in ferr:
-            if pm["kind"] == "printer" and pm["variant"] == "fun":
-                # an eval interrupted inside its helper function leaves the session stopped in
-                # that frame; the follow-up is then evaluated there, where the toplevel counter
-                # is not in scope - nothing can be inferred
-                continue
-            executed = 0
-            lo, hi = 0, 0
-        elif not [x for x in ("interrupted", "eval-error") if x in fst] and len(fvals) == 1 and fvals[0].isdigit():
+            # An eval interrupted (or failing) inside a function leaves the nREPL session stopped in
+            # that frame, and every later eval of the session is evaluated there, where the toplevel
+            # counters are not in scope: nothing can be inferred from this answer.
+            continue
+        if not [x for x in ("interrupted", "eval-error") if x in fst] and len(fvals) == 1 and fvals[0].isdigit():
             executed = int(fvals[0])
             # the counter is bumped just before (or, print-first variant, just after) the print
             lo, hi = executed - 1, executed + 1
